@@ -22,3 +22,155 @@ PROPS['C06'] = {
          'timeout': {'quick': 300, 'thorough': 3000}},
     ],
 }
+
+_COMPILER_ASSUMPTIONS = [
+    'reference decision procedure internal/model (written from the property statements) is the specification',
+    'name->number and all constants come from the vendored oracle (kernel UAPI 6.1 headers, Go syscall, x/sys v0.48.0), not from the library',
+    'independent interpreter internal/cbpf implements classic BPF semantics on the raw encoding produced by x/net bpf.Assemble',
+    'architectures other than the host are reached through the arch-setter hook and the host interpreter (no execution on foreign CPUs)',
+]
+
+PROPS['C01'] = {
+    'level': 'exploration',
+    'rule': ('cases = (policy, event-seed): policies drawn by rapid for x86_64/i386/arm/aarch64 (1..8 groups, name lists from 0 names '
+             'to the whole table, overlapping between groups, some with conditional entries / empty groups); events are '
+             'expanded deterministically per policy: every listed number (capped sample for huge lists, first/last always), '
+             'neighbours +-1, constants the compiled program compares with and their neighbours, 0, 0x3fffffff, boundary values, '
+             'numbers above every listed one, random; evaluations = policies + events; an event is non-trivial iff it is decided by '
+             'group >= 2, or its number is listed by groups with different actions, or it is an unlisted boundary number, or the '
+             'program is longer than 255 instructions; a case is non-trivial iff it has such an event; distinct by hash of the case JSON'),
+    'assumptions': _COMPILER_ASSUMPTIONS,
+    'required_classes': {'all': ['decided-by-group>=2', 'nr-listed-by-groups-with-different-actions',
+                                 'default-for-nr-above-every-listed', 'errno-returned', 'program>255',
+                                 'arch:x86_64', 'arch:i386', 'arch:arm', 'arch:aarch64', 'whole-table-group']},
+    'units': [
+        {'test': 'TestC01Groups', 'checks': {'quick': 3000, 'thorough': 120000}, 'shards': {'quick': 6, 'thorough': 16},
+         'timeout': {'quick': 300, 'thorough': 3000}},
+    ],
+}
+
+PROPS['C03'] = {
+    'level': 'exploration',
+    'rule': ('cases = (policy, event-seed): policies with conditional entries followed by further entries and groups (several lists per '
+             'syscall, 1..80 conditions per list, repeated argument indices, same syscall in several groups, interleaved entry order); '
+             'events per conditional syscall are solved per list: all conditions true / all but the last / first false / a random one false, '
+             'plus bait vectors whose argument words equal listed syscall numbers; evaluations = policies + events; an event is '
+             'non-trivial iff it hits a conditional entry none of whose lists is satisfied (the fall-through is observable); distinct by hash of the case JSON'),
+    'assumptions': _COMPILER_ASSUMPTIONS,
+    'required_classes': {'all': ['conditional-entry-not-satisfied', 'fallthrough-then-decided-by-a-later-entry', 'fallthrough-to-default',
+                                 'bait-argument-word-equals-a-listed-number', 'syscall-with>=2-lists', 'same-argument-twice-in-a-list',
+                                 'conditional-syscall-in>=2-groups', 'OR:-earlier-list-failed-later-list-matched', 'program>255']},
+    'units': [
+        {'test': 'TestC03Conditions', 'checks': {'quick': 4000, 'thorough': 160000}, 'shards': {'quick': 6, 'thorough': 16},
+         'timeout': {'quick': 300, 'thorough': 3000}},
+    ],
+}
+
+PROPS['C04'] = {
+    'level': 'exploration',
+    'rule': ('cases = (policy, event-seed): policies of all profiles, in particular sizes around the 255/256 switch of the architecture jump; '
+             'events: every other AUDIT_ARCH constant of the kernel header, the own id with single bits flipped, 0, 0xffffffff, random words, '
+             'with nr/args chosen to match rules; on x86_64 numbers 0x40000000, 0x40000000|n, 0x80000000|n for listed n and x32-table numbers, '
+             '0x7fffffff, 0x80000000, 0xffffffff and the negative control 0x3fffffff; an event is non-trivial iff the same nr/args with the '
+             'own architecture (resp. without the x32 bits) would have received a different answer, or nr is a boundary value; distinct by hash of the case JSON'),
+    'assumptions': _COMPILER_ASSUMPTIONS,
+    'required_classes': {'all': ['foreign-event-that-would-match-a-rule', 'x32-event-whose-low-bits-match-a-rule', 'x32-boundary-nr',
+                                 'negative-control-0x3fffffff', 'arch-jump:long-form', 'arch-jump:short-form',
+                                 'arch-jump:long-form-with-conditional-policy', 'arch-jump-distance-class:255', 'arch-jump-distance-class:256']},
+    'units': [
+        {'test': 'TestC04Guards', 'checks': {'quick': 3000, 'thorough': 90000}, 'shards': {'quick': 6, 'thorough': 16},
+         'timeout': {'quick': 300, 'thorough': 3000}},
+    ],
+}
+
+PROPS['C02'] = {
+    'level': 'exploration',
+    'exhaustive': False,
+    'rule': ('cases = (operation, argument index, operand, actual value, noise in the other five arguments, byte-order mode); '
+             '(1) complete boundary grid: hi and lo halves of operand and actual over {0,1,0x7fffffff,0x80000000,0xfffffffe,0xffffffff,seeded} '
+             '= 49x49 pairs x 8 operations x 6 indices x 3 byte-order modes (native = the order the package detected itself, little/big = '
+             'override hook with seccomp_data encoded accordingly); (2) rapid-drawn pairs incl. v, v+-1, v xor 2^32, halves swapped, one bit flipped; '
+             'oracle = Go uint64 relations; a case is non-trivial iff actual != operand and the two halves fall in different relation '
+             'classes (<,=,>), or for the bit tests the overlap is in exactly one half; distinct by hash of the case JSON'),
+    'assumptions': _COMPILER_ASSUMPTIONS + ['big-endian layout is reached through the byte-order override hook on a little-endian host'],
+    'required_classes': {'all': ['%s/arg%d/%s' % (op, a, o) for op in ('Equal', 'NotEqual', 'GreaterThan', 'LessThan', 'GreaterOrEqual', 'LessOrEqual', 'BitsSet', 'BitsNotSet')
+                                 for a in range(6) for o in ('native', 'little', 'big')] +
+                         ['halves-in-different-relation-classes', 'bits-overlap-in-exactly-one-half']},
+    'units': [
+        {'test': 'TestC02Grid', 'shards': {'quick': 8, 'thorough': 8}, 'timeout': {'quick': 300, 'thorough': 600}},
+        {'test': 'TestC02Random', 'checks': {'quick': 40000, 'thorough': 2000000}, 'shards': {'quick': 4, 'thorough': 16},
+         'timeout': {'quick': 300, 'thorough': 3000}},
+    ],
+}
+
+PROPS['C07'] = {
+    'level': 'exploration',
+    'rule': ('cases = a valid generated policy (all architectures, sizes far below 4096 instructions) with at most one injected defect at a '
+             'rapid-drawn position: unknown default action, no groups (nil/empty), unknown name (hostile strings, wrong case, near misses, names '
+             'valid only on another architecture) in names or in a conditional entry, duplicate name, syscall with and without conditions, '
+             'argument index > 5, unimplemented operation (first/middle/last of a list), operation in another letter case; plus every '
+             'architecture name of the package and GOARCH values through arch.GetInfo; the verdict is derived from the policy value by an '
+             'independent judge written from the statement: defect => (nil, error), no panic; none => accepted; case-variant operations => '
+             'rejected or behaving like the canonical operation; a case is non-trivial iff the defect is not at the very first position or the '
+             'policy has >= 2 groups (valid cases: >= 2 groups and conditional entries); distinct by hash of the case JSON'),
+    'assumptions': ['a name counts as unknown iff neither the library table nor the oracle table of the target architecture has it',
+                    'all-empty-groups policies, zero-condition entries and undocumented group actions are outside the statement: both outcomes pass'],
+    'required_classes': {'all': ['defect:unknown-default-action', 'defect:no-groups', 'defect:unknown-name', 'defect:duplicate-name',
+                                 'defect:conditional-and-unconditional', 'defect:argument-index>5', 'defect:unimplemented-operation',
+                                 'valid-policy', 'valid-with-empty-group', 'unknown-name:later-group', 'unknown-name-conditional:later-group',
+                                 'unimplemented-operation:last-in-list', 'unimplemented-operation:middle-of-list', 'unimplemented-operation:first-in-list',
+                                 'argument-index>5:later-group', 'operation-spelled-in-other-case', 'arch-lookup']},
+    'units': [
+        {'test': 'TestC07Validation', 'checks': {'quick': 12000, 'thorough': 600000}, 'shards': {'quick': 4, 'thorough': 16},
+         'timeout': {'quick': 300, 'thorough': 3000}},
+        {'test': 'TestC07Arch', 'timeout': {'quick': 120, 'thorough': 120}},
+    ],
+}
+
+PROPS['C05'] = {
+    'level': 'exploration',
+    'rule': ('cases = (policy, byte-order mode, ask-kernel flag): policies of every profile on 4 architectures incl. only-empty groups, one name, '
+             'whole table, 80-condition lists, sizes tuned to 4080..4096 instructions; every returned program must be non-empty, encode to raw form, '
+             'pass a Go port of bpf_check_classic+seccomp_check_filter when <= 4096 instructions, contain only RET K with K in {default, group actions, '
+             'ERRNO|ENOSYS on x86_64}; a sample (and every degenerate / near-4096 program) is installed on the running kernel by a throw-away child; '
+             'second kind: the verifier port itself is compared with the kernel on single-field corruptions of emitted programs (disagreement => inconclusive); '
+             'a program case is non-trivial iff some group is empty, or it is longer than 255, or it loads arguments; a differential case iff both reject; '
+             'distinct by hash of the case JSON'),
+    'assumptions': ['verifier port agrees with the running kernel (6.18) - itself tested differentially in the same run',
+                    'x/net bpf.Assemble is the raw encoder LoadFilter uses'],
+    'required_classes': {'all': ['all-groups-empty-attempted', 'program-within-10-of-4096', 'accepted-by-running-kernel', 'kernel:program-within-10-of-4096',
+                                 'kernel:all-groups-empty', 'has-empty-group', 'program>255', 'has-argument-loads', 'order:big', 'order:little', 'order:native',
+                                 'diff:both-reject', 'diff:both-accept', 'whole-table-group']},
+    'units': [
+        {'test': 'TestC05Programs', 'checks': {'quick': 3200, 'thorough': 160000}, 'shards': {'quick': 8, 'thorough': 16},
+         'helpers': ['kverify'], 'timeout': {'quick': 300, 'thorough': 3000}},
+        {'test': 'TestC05VerifierPort', 'checks': {'quick': 320, 'thorough': 16000}, 'shards': {'quick': 8, 'thorough': 16},
+         'helpers': ['kverify'], 'timeout': {'quick': 300, 'thorough': 3000}},
+    ],
+}
+
+# ---- texts for MANIFEST.json (gen_manifest.py) ----
+NOT_APPLICABLE = {}
+MANIFEST_TEXT = {
+    'C01': {'claim': 'no counterexample among rapid-generated policies x policy-directed event sets on all four table architectures; compiled program executed by an independent raw-cBPF interpreter and compared with a reference decision procedure; thorough adds complete 2^32 syscall-number sweeps for a few policies',
+            'note': 'trusts the reference procedure, the vendored oracle tables/constants, the interpreter and x/net bpf.Assemble; foreign CPUs are not executed',
+            'technique': 'property-based testing (rapid) against a reference model; partition-representative events; exhaustive nr sweep (thorough)'},
+    'C02': {'claim': 'complete boundary grid (49x49 operand/actual pairs x 8 ops x 6 indices x 3 byte-order modes) plus rapid-drawn pairs, oracle = Go uint64 relations',
+            'note': 'big-endian layout reached through the byte-order hook on a little-endian host; same trusted base as C01',
+            'technique': 'exhaustive boundary-class enumeration + property-based testing (rapid)'},
+    'C03': {'claim': 'no counterexample among generated policies with conditional entries followed by further entries/groups; events solved per condition list (all true / one false) and bait argument words equal to listed syscall numbers',
+            'note': 'same trusted base as C01',
+            'technique': 'property-based testing (rapid) against a reference model; constraint-solved events on fall-through paths'},
+    'C04': {'claim': 'no counterexample among generated policies (sizes searched around the 255/256 switch of the architecture jump) x foreign architecture words x x32 numbers chosen to match rules',
+            'note': 'same trusted base as C01; a genuinely foreign event on the real kernel is not produced',
+            'technique': 'property-based testing (rapid) against a reference model; directed size search'},
+    'C05': {'claim': 'every generated accepted policy yields a program that passes a port of the kernel verifier and has a closed return set; a sample incl. all degenerate and near-4096 programs is installed on the running kernel; the port is differentially validated against the kernel in the same run',
+            'note': 'the verifier port is trusted only as far as its differential campaign against kernel 6.18 reaches',
+            'technique': 'property-based testing (rapid) with validity predicate; differential testing against seccomp(2) in throw-away children'},
+    'C06': {'claim': 'rapid-generated label programs replayed through the public builder; observable-trace equality against an abstract label machine on one solved input per reachable branch of every jump',
+            'note': 'trusts x/net bpf.Assemble (raw encoding) and the harness interpreter; no absence claim beyond the generated programs',
+            'technique': 'property-based testing (rapid), model-based oracle (label machine), edge-covering inputs; native fuzz target (thorough)'},
+    'C07': {'claim': 'one defect of each class of the statement injected at generated positions of valid generated policies must give (nil, error) without panic; valid policies must be accepted; unknown operations never silently dropped',
+            'note': 'verdict derived from the policy value by an independent judge written from the statement; error texts never inspected',
+            'technique': 'property-based testing (rapid), fault injection into valid inputs, differential check for case-variant operations'},
+}
